@@ -165,7 +165,8 @@ def run(repo, rep):
             outs = list(o.fall) + list(o.cont)
             n_store = 0
             for st_ in outs:
-                is_store = any('CStoreRQMessage.command_field' in cn and cn.startswith('+') for cn in st_.conds)
+                from ..sym import cond_eq
+                is_store = cond_eq(st_.conds, 'asce.receive()[0].command_field', 'dimsemessages.CStoreRQMessage.command_field')
                 if not is_store:
                     continue
                 n_store += 1
